@@ -562,5 +562,12 @@ def index_edit(ctx):
     return res
 
 
-RULES = [index_edit, c17_coating_media, derived_sync_rule, c12_arg_names, no_stale, wmw_intensity, write_shape, beer_lambert, lost_write, aperture,
+def c02_lossless_without_k(ctx):
+    """shared with C02: Beer-Lambert attenuation with k = 0 for media that
+    have no extinction data (the trace does not abort)"""
+    from .C02 import lossless_without_k as _r
+    return _r(ctx)
+
+
+RULES = [c02_lossless_without_k, index_edit, c17_coating_media, derived_sync_rule, c12_arg_names, no_stale, wmw_intensity, write_shape, beer_lambert, lost_write, aperture,
          coating_pair, record_intensity]
